@@ -448,14 +448,21 @@ func (a *Analysis) paramTests(fn *FuncInfo) []*Atom {
 // callCtx derives the literals known about the callee's parameters at a call.
 func (a *Analysis) callCtx(fn *FuncInfo, args []*Term, st *State) []Lit {
 	tests := a.paramTests(fn)
+	var out []Lit
+	if fn.Pkg.PkgPath == modPath && (fn.Recv == "DBFT" || fn.Recv == "Context") {
+		for _, at := range stableAtoms() {
+			if v, ok := st.F.known(at); ok {
+				out = append(out, Lit{at, v})
+			}
+		}
+	}
 	if len(tests) == 0 {
-		return nil
+		return out
 	}
 	pidx := map[string]int{}
 	for i, p := range fn.Params {
 		pidx["p:"+p.Name()] = i
 	}
-	var out []Lit
 	for _, at := range tests {
 		sub := func(t *Term) *Term {
 			if t == nil {
@@ -468,6 +475,7 @@ func (a *Analysis) callCtx(fn *FuncInfo, args []*Term, st *State) []Lit {
 			}
 			return t
 		}
+		_ = out
 		var inst *Atom
 		if at.B != nil {
 			inst = mkAtom(at.Op, sub(at.A), sub(at.B))
@@ -479,6 +487,12 @@ func (a *Analysis) callCtx(fn *FuncInfo, args []*Term, st *State) []Lit {
 		}
 	}
 	return out
+}
+
+// stable atoms (per height, A1) that callees commonly branch on at entry
+func stableAtoms() []*Atom {
+	mi := mkTerm(KField, "ctx.MyIndex")
+	return []*Atom{mkAtom("lt", mi, constTerm("0")), mkAtom("b", mkTerm(KCall, "cfg.WatchOnly"), nil)}
 }
 
 // ---- summaries ----
@@ -494,6 +508,7 @@ type ExitClass struct {
 	Kills    map[string]int
 	Events   map[string]bool
 	Post     []Lit
+	post     map[string]Lit
 	n        int
 }
 
@@ -522,7 +537,11 @@ func (s *Summary) key() string {
 			es = append(es, e)
 		}
 		sort.Strings(es)
-		parts = append(parts, c.Ret+"{"+strings.Join(ks, ",")+"}{"+strings.Join(es, ",")+"}")
+		var ps []string
+		for _, l := range c.Post {
+			ps = append(ps, l.String())
+		}
+		parts = append(parts, c.Ret+"{"+strings.Join(ks, ",")+"}{"+strings.Join(es, ",")+"}{"+strings.Join(ps, ",")+"}")
 	}
 	return strings.Join(parts, ";")
 }
@@ -585,6 +604,21 @@ func classifyRet(mode string, e *State) string {
 	return ""
 }
 
+func hasParamTerm(t *Term) bool {
+	if t == nil {
+		return false
+	}
+	if t.K == KParam {
+		return true
+	}
+	for _, a := range t.Args {
+		if hasParamTerm(a) {
+			return true
+		}
+	}
+	return false
+}
+
 func boolResult(fn *FuncInfo) bool {
 	sig := fn.Obj.Type().(*types.Signature)
 	if sig.Results().Len() == 0 {
@@ -634,6 +668,24 @@ func (a *Analysis) computeSummary(fn *FuncInfo, ctx []Lit) *Summary {
 		c.n++
 		for l, k := range e.Killed {
 			c.Kills[l] |= k
+		}
+		// post-facts: literals over state atoms that hold at every exit of the class
+		pf := map[string]Lit{}
+		for k, v := range e.F.m {
+			at := e.F.atoms[k]
+			if hasLocalTerm(at.A) || hasLocalTerm(at.B) || hasParamTerm(at.A) || hasParamTerm(at.B) {
+				continue
+			}
+			pf[Lit{at, v}.String()] = Lit{at, v}
+		}
+		if c.post == nil {
+			c.post = pf
+		} else {
+			for k := range c.post {
+				if _, ok := pf[k]; !ok {
+					delete(c.post, k)
+				}
+			}
 		}
 		if c.Events == nil {
 			c.Events = map[string]bool{}
@@ -692,6 +744,15 @@ func (a *Analysis) computeSummary(fn *FuncInfo, ctx []Lit) *Summary {
 	for _, c := range s.Classes {
 		if c.Events == nil {
 			c.Events = map[string]bool{}
+		}
+		var ks []string
+		for k := range c.post {
+			ks = append(ks, k)
+		}
+		sort.Strings(ks)
+		c.Post = nil
+		for _, k := range ks {
+			c.Post = append(c.Post, c.post[k])
 		}
 	}
 	return s
